@@ -45,58 +45,61 @@ func implLarge(c core.Case) []string {
 			r = ringz.New[int](n)
 			return "ok"
 		},
-		func(t []string) string {
-			num := func(i int) (int, bool) {
-				if i >= len(t) {
-					return 0, false
-				}
-				v, err := strconv.Atoi(t[i])
-				return v, err == nil
+		func(t []string) string { return largeOp(&r, t) })
+}
+
+// largeOp: one bulk or single operation of the large protocol on a Ring[int].
+func largeOp(r *ringz.Ring[int], t []string) string {
+	num := func(i int) (int, bool) {
+		if i >= len(t) {
+			return 0, false
+		}
+		v, err := strconv.Atoi(t[i])
+		return v, err == nil
+	}
+	switch {
+	case t[0] == "fill" && len(t) == 3:
+		n, ok1 := num(1)
+		v, ok2 := num(2)
+		if !ok1 || !ok2 || n < 0 {
+			return "bad-op"
+		}
+		k := 0
+		for i := 0; i < n; i++ {
+			if r.Push(v + i) {
+				k++
 			}
-			switch {
-			case t[0] == "fill" && len(t) == 3:
-				n, ok1 := num(1)
-				v, ok2 := num(2)
-				if !ok1 || !ok2 || n < 0 {
-					return "bad-op"
-				}
-				k := 0
-				for i := 0; i < n; i++ {
-					if r.Push(v + i) {
-						k++
-					}
-				}
-				return strconv.Itoa(k)
-			case t[0] == "xfill" && len(t) == 3:
-				n, ok1 := num(1)
-				v, ok2 := num(2)
-				if !ok1 || !ok2 || n < 0 {
-					return "bad-op"
-				}
-				for i := 0; i < n; i++ {
-					r.PushWithExpand(v + i)
-				}
-				return "ok"
-			case t[0] == "drain" && len(t) == 2:
-				n, ok1 := num(1)
-				if !ok1 || n < 0 {
-					return "bad-op"
-				}
-				var vs []int
-				for i := 0; i < n; i++ {
-					if v, ok := r.Pop(); ok {
-						vs = append(vs, v)
-					}
-				}
-				return showDrained(vs)
+		}
+		return strconv.Itoa(k)
+	case t[0] == "xfill" && len(t) == 3:
+		n, ok1 := num(1)
+		v, ok2 := num(2)
+		if !ok1 || !ok2 || n < 0 {
+			return "bad-op"
+		}
+		for i := 0; i < n; i++ {
+			r.PushWithExpand(v + i)
+		}
+		return "ok"
+	case t[0] == "drain" && len(t) == 2:
+		n, ok1 := num(1)
+		if !ok1 || n < 0 {
+			return "bad-op"
+		}
+		var vs []int
+		for i := 0; i < n; i++ {
+			if v, ok := r.Pop(); ok {
+				vs = append(vs, v)
 			}
-			if t[0] == "init" {
-				if n, ok := num(1); !ok || n <= 0 || len(t) != 2 {
-					return "bad-op"
-				}
-			}
-			return ringOp(&r, t)
-		})
+		}
+		return showDrained(vs)
+	}
+	if t[0] == "init" {
+		if n, ok := num(1); !ok || n <= 0 || len(t) != 2 {
+			return "bad-op"
+		}
+	}
+	return ringOp(r, t)
 }
 
 // checkLarge: the property's own predicate on a plain slice queue.
